@@ -301,6 +301,50 @@ mutual
     | t :: ts => wf tbl t && wfList tbl ts
 end
 
+/-! ## What the formatter may not look at
+
+Two parse trees are *equivalent* when they have the same productions node by node and the
+same tokens, except that layout tokens (Indent, Dedent, newline: the source's indentation
+and line ends) may carry any text and `Documentation` tokens may differ in trailing
+blanks.  The property statement ("the same token sequence up to whitespace, blank lines
+and trailing blanks in comments/documentation") allows the formatter to change exactly
+these; idempotence needs the converse: the formatter's output must not *depend* on them. -/
+
+def docSym : String := "Documentation"
+
+def tokEquiv (s : String) (x x' : Str) : Bool :=
+  isLayoutSym s || (if s == docSym then rstrip x == rstrip x' else x == x')
+
+mutual
+  def equivT : Tree → Tree → Bool
+    | .tok s x, .tok s' x' => s == s' && tokEquiv s x x'
+    | .node p cs, .node p' cs' => p == p' && equivL cs cs'
+    | _, _ => false
+  def equivL : List Tree → List Tree → Bool
+    | [], [] => true
+    | t :: ts, t' :: ts' => equivT t t' && equivL ts ts'
+    | _, _ => false
+end
+
+/-- Table obligation for that: in every registered production, a right-hand-side position
+that holds a layout terminal is one the handler ignores (`Handler.dropped`; the converse of
+`dropOK`), and a `Documentation` terminal is only ever handed to `_doc`, which strips its
+trailing blanks before anything measures it. -/
+def normPos (h : Handler) : Nat → List String → Bool
+  | _, [] => true
+  | i, s :: rest =>
+    (!isLayoutSym s || h.dropped.contains i) && (s != docSym || h == .docRstrip) &&
+      normPos h (i + 1) rest
+
+def normCore (r : Option Handler) (rhs : List String) : Bool :=
+  match r with
+  | none => false
+  | some h => normPos h 0 rhs
+
+def normOK (e : String × List String × String × Bool) : Bool := normCore (resolve e) e.2.1
+
+def tableNormal (tbl : Table) : Bool := tbl.all normOK
+
 /-! ## Content of values -/
 
 def Row.content (r : Row) : Str := despace r.columns.flatten
@@ -328,8 +372,9 @@ transcribes, per handler, between which arguments no blank is inserted (read off
 format strings / joins of format_emb.py; columns of a row are always blank-separated by
 `_columnize`).  `allowedGlued` is the audited list of computed pairs: for each of them
 the harness checks on sample texts that the real tokenizer splits the juxtaposition
-back into the two tokens.  The one computed pair that must not be glued is
-`("-", "-")` (finding `minus-minus-juxtaposed`). -/
+back into the two tokens.  The one pair that must not be glued, `("-", "-")` (`a - -b`
+would become `a--b`, a documentation token), is kept apart by
+`_additive_expression_right` (`keptApart`); no other handler can produce it. -/
 
 /-- Arguments `i < j` of handler `h` are printed with nothing in between (when every
 argument strictly between them is empty). -/
@@ -350,74 +395,98 @@ def glue : Handler → Nat → Nat → Bool
   | .inlineBits, 1, 2 => true
   | .inlineType, 2, 4 => true
   | .inlineType, 3, 4 => true
-  | .additiveExpressionRight, 0, 1 => true   -- (glued unless both are "-")
+  | .additiveExpressionRight, 0, 1 => true   -- (except `keptApart`)
   | _, _, _ => false
 
-abbrev Grammar := List (String × List String)
+/-- Terminal pairs (last terminal of the left argument, first terminal of the right one)
+between which the handler inserts a blank although it glues the two arguments otherwise:
+`_additive_expression_right` tests `operator == "-" and operand.startswith("-")`
+(`minus` = the terminal `"-"`). -/
+def keptApart {α : Type} [DecidableEq α] (minus : α) : Handler → α → α → Bool
+  | .additiveExpressionRight, x, y => x == minus && y == minus
+  | _, _, _ => false
 
-def addAll (acc : List String) (l : List String) : List String :=
+/-! The computation is generic in the type of symbols (it is run on the table of strings
+by the compiled checker, ops `GLUE`/`GLUECHECK`: obligation `C11_render_separable`.  A
+kernel evaluation on an interned copy was tried and dropped: the kernel's call-by-name
+evaluation recomputes the FIRST/LAST fixpoints at every use, > 15 min). -/
+
+abbrev Gram (α : Type) := List (α × List α)
+/-- A registry entry with its handler resolved. -/
+abbrev GEntry (α : Type) := α × List α × Option Handler
+
+section Generic
+variable {α : Type} [DecidableEq α]
+
+def addAll (acc : List α) (l : List α) : List α :=
   l.foldl (fun a x => if a.contains x then a else a ++ [x]) acc
 
-/-- Symbols that can derive the empty token sequence. -/
-def nullableSyms (g : Grammar) : List String :=
-  let step (ns : List String) : List String :=
-    addAll ns ((g.filter (fun p => p.2.all ns.contains)).map (·.1))
-  (List.range g.length).foldl (fun ns _ => step ns) []
+/-- Apply `step` until nothing changes, at most `fuel` times. -/
+def iterFix {β : Type} [DecidableEq β] (step : β → β) : Nat → β → β
+  | 0, x => x
+  | n + 1, x => let y := step x; if y = x then x else iterFix step n y
 
-def lookupSet (m : List (String × List String)) (s : String) : List String :=
+def nullableStep (g : Gram α) (ns : List α) : List α :=
+  addAll ns ((g.filter (fun p => p.2.all ns.contains)).map (·.1))
+
+/-- Symbols that can derive the empty token sequence. -/
+def nullableSyms (g : Gram α) : List α := iterFix (nullableStep g) g.length []
+
+def lookupSet (m : List (α × List α)) (s : α) : List α :=
   match m.find? (fun p => p.1 == s) with
   | some p => p.2
   | none => []
 
-def isNonterminal (g : Grammar) (s : String) : Bool := g.any (fun p => p.1 == s)
+def isNonterminal (g : Gram α) (s : α) : Bool := g.any (fun p => p.1 == s)
 
 /-- Terminals that can begin a derivation of the symbol sequence `rhs`. -/
-def firstOfSeq (g : Grammar) (ns : List String) (m : List (String × List String)) : List String → List String
+def firstOfSeq (g : Gram α) (ns : List α) (m : List (α × List α)) : List α → List α
   | [] => []
   | s :: rest =>
     let here := if isNonterminal g s then lookupSet m s else [s]
     if ns.contains s then addAll here (firstOfSeq g ns m rest) else here
 
-def setInsert (m : List (String × List String)) (k : String) (vs : List String) : List (String × List String) :=
+def setInsert (m : List (α × List α)) (k : α) (vs : List α) : List (α × List α) :=
   if m.any (fun p => p.1 == k) then m.map (fun p => if p.1 == k then (p.1, addAll p.2 vs) else p)
   else m ++ [(k, addAll [] vs)]
 
-/-- FIRST sets (`rev = false`) or LAST sets (`rev = true`) of all nonterminals. -/
-def edgeSets (g : Grammar) (rev : Bool) : List (String × List String) :=
-  let ns := nullableSyms g
-  let step (m : List (String × List String)) : List (String × List String) :=
-    g.foldl (fun m p => setInsert m p.1 (firstOfSeq g ns m (if rev then p.2.reverse else p.2))) m
-  (List.range g.length).foldl (fun m _ => step m) []
+def edgeStep (g : Gram α) (ns : List α) (rev : Bool) (m : List (α × List α)) : List (α × List α) :=
+  g.foldl (fun m p => setInsert m p.1 (firstOfSeq g ns m (if rev then p.2.reverse else p.2))) m
 
-def symEdge (g : Grammar) (m : List (String × List String)) (s : String) : List String :=
+/-- FIRST sets (`rev = false`) or LAST sets (`rev = true`) of all nonterminals. -/
+def edgeSets (g : Gram α) (rev : Bool) : List (α × List α) :=
+  iterFix (edgeStep g (nullableSyms g) rev) g.length []
+
+def symEdge (g : Gram α) (m : List (α × List α)) (s : α) : List α :=
   if isNonterminal g s then lookupSet m s else [s]
+
+def leadOkSeq (ns S : List α) (rhs : List α) : Bool :=
+  (rhs.foldl (fun (st : Bool × Bool) s =>
+    -- st = (still scanning, verdict so far)
+    if !st.1 then st
+    else if !S.contains s then (false, false)
+    else if ns.contains s then (true, true) else (false, true)) (true, true)).2
+
+def leadOkEntry (ns S : List α) (e : GEntry α) : Bool :=
+  match e.2.2 with
+  | some .concatenateWithPrefixSpaces => true
+  | some .emptyString => true
+  | some .concatenate => leadOkSeq ns S e.2.1
+  | some .identity => leadOkSeq ns S e.2.1
+  | _ => false
+
+def leadStep (tbl : List (GEntry α)) (ns S : List α) : List α :=
+  S.filter (fun s => (tbl.filter (fun e => e.1 == s)).all (leadOkEntry ns S))
 
 /-- Symbols whose rendering, when non-empty, always begins with a blank (results of
 `_concatenate_with_prefix_spaces`, and concatenations/identities that begin with such a
 symbol): greatest fixpoint. -/
-def leadBlankSyms (tbl : Table) (g : Grammar) : List String :=
-  let ns := nullableSyms g
-  let okSeq (S : List String) : List String → Bool :=
-    fun rhs => (rhs.foldl (fun (st : Bool × Bool) s =>
-      -- st = (still scanning, verdict so far)
-      if !st.1 then st
-      else if !S.contains s then (false, false)
-      else if ns.contains s then (true, true) else (false, true)) (true, true)).2
-  let okEntry (S : List String) (e : String × List String × String × Bool) : Bool :=
-    match resolve e with
-    | some .concatenateWithPrefixSpaces => true
-    | some .emptyString => true
-    | some .concatenate => okSeq S e.2.1
-    | some .identity => okSeq S e.2.1
-    | _ => false
-  let step (S : List String) : List String :=
-    S.filter (fun s => (tbl.filter (fun e => e.1 == s)).all (okEntry S))
-  (List.range g.length).foldl (fun S _ => step S) (addAll [] (g.map (·.1)))
+def leadBlankSyms (tbl : List (GEntry α)) (g : Gram α) : List α :=
+  iterFix (leadStep tbl (nullableSyms g)) g.length (addAll [] (g.map (·.1)))
 
-def pairsOfEntry (tbl : Table) (g : Grammar) (ns : List String) (fs ls : List (String × List String))
-    (lead : List String)
-    (e : String × List String × String × Bool) : List (String × String) :=
-  match resolve e with
+def pairsOfEntry (minus : α) (g : Gram α) (ns : List α) (fs ls : List (α × List α))
+    (lead : List α) (e : GEntry α) : List (α × α) :=
+  match e.2.2 with
   | none => []
   | some h =>
     let rhs := e.2.1
@@ -428,20 +497,40 @@ def pairsOfEntry (tbl : Table) (g : Grammar) (ns : List String) (fs ls : List (S
           match rhs[i]?, rhs[j]? with
           | some a, some b =>
             if lead.contains b then [] else
-            (symEdge g ls a).flatMap fun x => (symEdge g fs b).map fun y => (x, y)
+            (symEdge g ls a).flatMap fun x =>
+              ((symEdge g fs b).filter fun y => !keptApart minus h x y).map fun y => (x, y)
           | _, _ => []
         else []
 
 /-- Every terminal pair some handler can print without a blank in between. -/
-def gluedPairs (tbl : Table) (g : Grammar) : List (String × String) :=
+def gluedPairsG (minus : α) (tbl : List (GEntry α)) : List (α × α) :=
+  let g : Gram α := tbl.map (fun e => (e.1, e.2.1))
   let ns := nullableSyms g
   let fs := edgeSets g false
   let ls := edgeSets g true
   let lead := leadBlankSyms tbl g
-  (tbl.flatMap (pairsOfEntry tbl g ns fs ls lead)).foldl (fun a x => if a.contains x then a else a ++ [x]) []
+  (tbl.flatMap (pairsOfEntry minus g ns fs ls lead)).foldl (fun a x => if a.contains x then a else a ++ [x]) []
 
-/-- Pairs that are known to be wrongly glued (open finding). -/
-def knownBadGlued : List (String × String) := [("\"-\"", "\"-\"")]
+/-- The four fixpoint computations did reach a fixpoint (they are cut off after as many
+rounds as there are productions). -/
+def fixpointsReached (tbl : List (GEntry α)) : Bool :=
+  let g : Gram α := tbl.map (fun e => (e.1, e.2.1))
+  let ns := nullableSyms g
+  decide (nullableStep g ns = ns) &&
+  decide (edgeStep g ns false (edgeSets g false) = edgeSets g false) &&
+  decide (edgeStep g ns true (edgeSets g true) = edgeSets g true) &&
+  decide (leadStep tbl ns (leadBlankSyms tbl g) = leadBlankSyms tbl g)
+
+end Generic
+
+abbrev Grammar := Gram String
+
+def minusSym : String := "\"-\""
+
+def resolved (tbl : Table) : List (GEntry String) := tbl.map (fun e => (e.1, e.2.1, resolve e))
+
+/-- On the table of strings (the productions of the registry are the grammar: `C11_table_ok`). -/
+def gluedPairs (tbl : Table) : List (String × String) := gluedPairsG minusSym (resolved tbl)
 
 def allowedGlued : List (String × String) := [
   ("\"[\"", "\"(\""),
@@ -685,8 +774,11 @@ def allowedGlued : List (String × String) := [
   ("Number", "\"[\"")
 ]
 
-/-- The separability obligation on the regenerated table. -/
-def gluedOK (tbl : Table) (g : Grammar) : Bool :=
-  (gluedPairs tbl g).all (fun p => allowedGlued.contains p || knownBadGlued.contains p)
+/-- The separability obligation on the regenerated table: the fixpoint computations
+converged, and every terminal pair some handler prints with nothing in between is in the
+audited list (none of whose pairs the tokenizer merges or splits differently — sampled on
+the real tokenizer on every run). -/
+def gluedOK (tbl : Table) : Bool :=
+  fixpointsReached (resolved tbl) && (gluedPairs tbl).all (fun p => allowedGlued.contains p)
 
 end Emboss.Fmt
